@@ -25,5 +25,6 @@ def run(ctx):
     fx.weak_form_memo(ctx)
     fx.precision_pin(ctx)
     fx.late_reads(ctx)
+    fx.assembler_plumbing(ctx)
     state.process_state(ctx)
     argbind.repo_argument_binding(ctx)
